@@ -1,7 +1,9 @@
 // =============================================================================
 // TRUSTED PRELUDE (unit tlsinfo): tokio::sync::{RwLock, oneshot::Receiver}, Arc.
 // T2 (monitor rule) for the RwLock: the protected State is `Empty` exactly for receivers created by
-// `TlsConnectionInfoReciever::empty()` - checked where the code writes the state (obligation ti.keeps_kind).
+// `TlsConnectionInfoReciever::empty()` - `inv` is assumed on acquisition and proved, for the value actually in the
+// slot, where the write guard is released (obligation ti.keeps_kind; the unit text states that `inv` speaks about the
+// kind only: axiom_slot_inv_is_kind).
 // `try_read`/`try_write` may fail for no reason visible to the caller (lock contention).
 // =============================================================================
 pub mod tokio { pub mod sync { pub mod oneshot { pub use super::super::super::Receiver; } } }
